@@ -125,8 +125,16 @@ private theorem convertRecords_err (cfg : Config) (hcfg : NoMappings cfg) (versi
       · rename_i e' he; cases h; exact ih he
       · cases h
 
+private theorem decodeUNumber_short (bits : Nat) (v : Bytes) (h : ¬ v.length > 8) : ∃ x, decodeUNumber bits v = .ok x := by
+  unfold decodeUNumber decodeUNumberRaw
+  by_cases h1 : v.length = 1 ∨ v.length = 2 ∨ v.length = 4 ∨ v.length = 8
+  · simp [h1]
+  · have h2 : v.length < 8 := by omega
+    simp [h1, h2]
+
 private theorem searchSamplingRate_err (rs : List Netflow.OptionsDataRecord) (e : Err)
     (h : searchSamplingRate rs = .error e) : e = .eof := by
+  -- since sampling options of any width are accepted (≤ 8 bytes decoded, wider ones ignored) the lookup never fails
   have pop : ∀ (fs : List Netflow.DataField) (t : Nat) (e : Err), populate fs t = .error e → e = .eof := by
     intro fs t e h
     unfold populate at h
@@ -135,8 +143,11 @@ private theorem searchSamplingRate_err (rs : List Netflow.OptionsDataRecord) (e 
     · split at h
       · cases h
       · split at h
-        · rename_i e' he; cases h; exact readU_err he
         · cases h
+        · rename_i hl
+          obtain ⟨x, hx⟩ := decodeUNumber_short 32 _ hl
+          rw [hx] at h
+          cases h
   induction rs with
   | nil => simp [searchSamplingRate] at h
   | cons r rs ih =>
